@@ -502,6 +502,12 @@ var wireUnsetBeforeV4 = false
 func wireGenBinds(k *kernel.Kernel, proto int, n int, allowNamed bool) ([]wireBind, bool) {
 	tp := k.Tape
 	named := allowNamed && proto >= 3 && n > 0 && tp.Chance(1, 5)
+	if allowNamed && wireUnsetBeforeV4 && proto < 3 && n > 0 && tp.Chance(1, 12) {
+		// names for values came with protocol 3: before it values can only be sent by
+		// position, the request cannot be expressed
+		named = true
+		k.Fault("req.named-values-before-v3")
+	}
 	var out []wireBind
 	for i := 0; i < n; i++ {
 		t := genScalar(tp, proto)
@@ -617,6 +623,9 @@ func wireGenOp(k *kernel.Kernel, token string, proto int) *wireOp {
 			if b.unset && proto < 4 {
 				op.inexpressible, op.why = true, "a value left unset (UnsetValue)"
 			}
+		}
+		if op.named && proto < 3 {
+			op.inexpressible, op.why = true, "values given by name (NamedValue)"
 		}
 		ph := make([]string, n)
 		for i := range ph {
